@@ -211,6 +211,11 @@ def random_run(topology, seed, profile, steps, settings=None, max_circuits=3, go
                     # layer re-points a verified peer's address to the source of any validly signed datagram, which the
                     # tunnel spec does not model (see DESIGN.md, observations)
                     w.forge_destroy(w.describe(g)["signer"], rng.choice(names), w.describe(g)["cid"], replay_seq=g.seq)
+                elif rng.random() < 0.3:
+                    # names another node's key under a signature that does not verify
+                    dst = rng.choice(names)
+                    w.forge_destroy(rng.choice(list(names) + ["adv"]), dst, rng.choice(known),
+                                    claim=rng.choice([m for m in names if m != dst]))
                 else:
                     w.forge_destroy(rng.choice(list(names) + ["adv"]), rng.choice(names), rng.choice(known))
             elif name == "tready":
@@ -287,6 +292,7 @@ def spec_projection(st):
         return list(f.items())
     for n, f in items(st["circ"]):
         out["circ"][n] = sorted(({"cid": c, "goal": v["goal"], "hops": [h["peer"] for h in v["hops"]], "unv": v["unv"]["peer"],
+                                  "via": v["hops"][0]["peer"] if v["hops"] else v["unv"]["peer"],
                                   "closing": v["closing"], "early": v["early"], "ctype": v["ctype"],
                                   "hs": v["hs"]["st"] != "none"} for c, v in items(f)), key=lambda x: x["cid"])
     for n, f in items(st["relay"]):
